@@ -8,7 +8,7 @@ import sys, os, subprocess, json, shutil, time, glob, re
 
 VERIF = '/verif'
 REPO = '/repo'
-WT = '/tmp/wt/verify'
+WT = os.environ.get('SEED_WT', '/tmp/wt/verify')
 ENV = dict(os.environ, CARGO_NET_OFFLINE='true', CARGO_TARGET_DIR=WT + '-target')
 
 
